@@ -21,7 +21,9 @@
 // by more batches); part I (msgcut: ReadMessage over every cut); part J (split:
 // frame 1 delivered in two pieces, cut column "s<k>", or "es<k>" with the later
 // frames already on the wire); part K (trunc2: a complete frame whose magic-2
-// batch was truncated by the broker inside the last record).  The OCaml driver
+// batch was truncated by the broker inside the last record); part L (stall: the
+// peer goes silent, cut column "st<a|r|w>.<k>", the Conn has a 150 ms
+// deadline; run concurrently).  The OCaml driver
 // evaluates the extracted Coq model (Model/ConnOps.v conn_run) on the part
 // before the first '|'.
 package main
@@ -155,6 +157,9 @@ type fakeConn struct {
 	cut     int // -1: no cut
 	offered int // scripted bytes the script has reached so far (delivered or cut away)
 
+	stall bool      // after the cut position the peer goes silent instead of closing
+	rd    time.Time // the read deadline the Conn set on the net.Conn (honoured in stall mode only)
+
 	split     int  // > 0: no Read returns bytes from both sides of this position of frame 1
 	eager     bool // every scripted frame is queued behind frame 1 at once (pipelined answers)
 	delivered int  // scripted bytes handed to the client so far
@@ -233,6 +238,16 @@ func (f *fakeConn) Read(p []byte) (int, error) {
 		}
 		return n, nil
 	}
+	if !f.priming && f.stall {
+		// a silent peer: block until the read deadline, forever without one
+		if f.rd.IsZero() {
+			select {}
+		}
+		if d := time.Until(f.rd); d > 0 {
+			time.Sleep(d)
+		}
+		return 0, os.ErrDeadlineExceeded
+	}
 	if !f.priming && (f.peerClosed || (f.cut >= 0 && f.offered >= f.cut)) {
 		return 0, io.EOF
 	}
@@ -251,8 +266,8 @@ func (f *fakeConn) Write(b []byte) (int, error) {
 func (f *fakeConn) Close() error                       { f.closed = true; return nil }
 func (f *fakeConn) LocalAddr() net.Addr                { return &net.TCPAddr{IP: net.IPv4(127, 0, 0, 1), Port: 50000} }
 func (f *fakeConn) RemoteAddr() net.Addr               { return &net.TCPAddr{IP: net.IPv4(127, 0, 0, 1), Port: 9092} }
-func (f *fakeConn) SetDeadline(t time.Time) error      { return nil }
-func (f *fakeConn) SetReadDeadline(t time.Time) error  { return nil }
+func (f *fakeConn) SetDeadline(t time.Time) error      { f.rd = t; return nil }
+func (f *fakeConn) SetReadDeadline(t time.Time) error  { f.rd = t; return nil }
 func (f *fakeConn) SetWriteDeadline(t time.Time) error { return nil }
 
 // the broker's ApiVersions answer that makes negotiateVersion pick the
@@ -308,6 +323,8 @@ func classify(err error) string {
 		return "hang"
 	case errors.Is(err, io.ErrShortBuffer):
 		return "shortbuf"
+	case errors.Is(err, os.ErrDeadlineExceeded):
+		return "timeout"
 	}
 	msg := err.Error()
 	var n int64
@@ -427,11 +444,18 @@ func runOp(conn *kafka.Conn, f *fakeConn, o opSpec, acts []int64, primed bool) (
 const caseTimeout = 2 * time.Second
 const maxHungCases = 3
 
+const stallTimeout = 3 * time.Second
+const stallDeadline = 150 * time.Millisecond
+
 var hungCases int
+var hungMu sync.Mutex // part L runs its cases concurrently
 
 func runCase(tc *tcase) []string {
 	topic, ops, frames, cut := tc.topic, tc.ops, tc.frames, tc.cut
-	if hungCases >= maxHungCases {
+	hungMu.Lock()
+	tripped := hungCases >= maxHungCases
+	hungMu.Unlock()
+	if tripped {
 		out := make([]string, len(ops))
 		for i := range out {
 			out[i] = "notrun~0"
@@ -445,6 +469,9 @@ func runCase(tc *tcase) []string {
 	go func() {
 		defer close(done)
 		f := &fakeConn{priming: !tc.noprime, table: pinTable(ops), frames: frames, cut: cut, split: tc.split, eager: tc.eager}
+		if tc.stallCfg != 0 {
+			f.stall, f.cut = true, tc.stallK
+		}
 		conn := kafka.NewConnWith(f, kafka.ConnConfig{Topic: topic, Partition: 0, ClientID: "c"})
 		if !tc.noprime {
 			perr := func() (err error) {
@@ -460,6 +487,14 @@ func runCase(tc *tcase) []string {
 				warn("priming failed: %v", perr)
 			}
 		}
+		switch tc.stallCfg {
+		case 'a':
+			conn.SetDeadline(time.Now().Add(stallDeadline))
+		case 'r':
+			conn.SetReadDeadline(time.Now().Add(stallDeadline))
+		case 'w':
+			conn.SetWriteDeadline(time.Now().Add(stallDeadline))
+		}
 		for i, o := range ops {
 			cls := runOp(conn, f, o, tc.acts[i], !tc.noprime)
 			mu.Lock()
@@ -468,16 +503,21 @@ func runCase(tc *tcase) []string {
 			mu.Unlock()
 		}
 	}()
-	t := time.NewTimer(caseTimeout)
+	wd := caseTimeout
+	if tc.stallCfg != 0 {
+		wd = stallTimeout
+	}
+	t := time.NewTimer(wd)
 	select {
 	case <-done:
 		t.Stop()
 	case <-t.C:
+		hungMu.Lock()
 		hungCases++
 		if hungCases == maxHungCases {
-			out.Flush()
-			fmt.Fprintf(os.Stderr, "c11: circuit breaker: %d cases hung (watchdog %v each); the remaining cases are not run (notrun~0)\n", hungCases, caseTimeout)
+			fmt.Fprintf(os.Stderr, "c11: circuit breaker: %d cases hung (watchdog %v each); the remaining cases are not run (notrun~0)\n", hungCases, wd)
 		}
+		hungMu.Unlock()
 	}
 	mu.Lock()
 	defer mu.Unlock()
@@ -502,6 +542,11 @@ type tcase struct {
 	noprime bool // "nrun": no priming, the script also answers the ApiVersions requests
 	split   int  // cut column "s<k>" / "es<k>": no cut, frame 1 is delivered in two pieces [..k) [k..)
 	eager   bool // "es<k>": and every scripted frame is on the wire right behind frame 1
+
+	// cut column "st<cfg>.<k>": the peer goes silent after k scripted bytes and the
+	// Conn has a deadline (a: SetDeadline, r: SetReadDeadline, w: SetWriteDeadline)
+	stallCfg byte // 0: none
+	stallK   int
 }
 
 func (c *tcase) head() string {
@@ -537,6 +582,9 @@ func (c *tcase) head() string {
 		if c.eager {
 			cut = "e" + cut
 		}
+	}
+	if c.stallCfg != 0 {
+		cut = fmt.Sprintf("st%c.%s", c.stallCfg, kvfmt.U(uint64(c.stallK)))
 	}
 	kw := "run"
 	if c.noprime {
@@ -617,6 +665,16 @@ func parseCase(head string) (*tcase, error) {
 	}
 	switch {
 	case fs[4] == "-":
+	case strings.HasPrefix(fs[4], "st"):
+		x := fs[4]
+		if len(x) < 5 || x[3] != '.' || !strings.ContainsRune("arw", rune(x[2])) {
+			return nil, fmt.Errorf("bad stall %q", x)
+		}
+		k, err := strconv.ParseUint(x[4:], 16, 31)
+		if err != nil {
+			return nil, err
+		}
+		c.stallCfg, c.stallK = x[2], int(k)
 	case strings.HasPrefix(fs[4], "s") || strings.HasPrefix(fs[4], "es"):
 		c.eager = fs[4][0] == 'e'
 		k, err := strconv.ParseUint(strings.TrimPrefix(strings.TrimPrefix(fs[4], "e"), "s"), 16, 31)
@@ -646,6 +704,36 @@ func emit(c *tcase) {
 func replay() {
 	sc := bufio.NewScanner(os.Stdin)
 	sc.Buffer(make([]byte, 1<<20), 1<<26)
+	type pending struct {
+		id, tags string
+		hasTags  bool
+		c        *tcase
+	}
+	var batch []pending
+	flush := func() {
+		if len(batch) == 0 {
+			return
+		}
+		var results [][]string
+		if len(batch) == 1 {
+			results = [][]string{runCase(batch[0].c)}
+		} else {
+			cs := make([]*tcase, len(batch))
+			for i, p := range batch {
+				cs[i] = p.c
+			}
+			results = runMany(cs)
+		}
+		for i, p := range batch {
+			res := strings.Join(results[i], " ")
+			if p.hasTags {
+				fmt.Fprintf(out, "%s %s | %s | %s\n", p.id, p.c.head(), res, p.tags)
+			} else {
+				fmt.Fprintf(out, "%s %s | %s\n", p.id, p.c.head(), res)
+			}
+		}
+		batch = batch[:0]
+	}
 	for sc.Scan() {
 		line := strings.TrimSpace(sc.Text())
 		if line == "" || strings.HasPrefix(line, "#") {
@@ -663,13 +751,19 @@ func replay() {
 			out.Flush()
 			os.Exit(2)
 		}
-		res := strings.Join(runCase(c), " ")
+		p := pending{id: id, c: c}
 		if len(cols) == 3 {
-			fmt.Fprintf(out, "%s %s | %s | %s\n", id, c.head(), res, strings.TrimSpace(cols[2]))
-		} else {
-			fmt.Fprintf(out, "%s %s | %s\n", id, c.head(), res)
+			p.tags, p.hasTags = strings.TrimSpace(cols[2]), true
+		}
+		if c.stallCfg == 0 {
+			flush()
+			batch = append(batch, p)
+			flush()
+		} else { // the stall cases wait for their deadlines: run them concurrently
+			batch = append(batch, p)
 		}
 	}
+	flush()
 	if err := sc.Err(); err != nil {
 		fmt.Fprintln(os.Stderr, "c11:", err)
 		os.Exit(2)
@@ -1431,8 +1525,110 @@ func genAll(seed int64, tier string) {
 	nI := genMsgCut(seed + 55555)
 	nJ := genSplit(seed + 66666)
 	nK := genTrunc2(seed + 77777)
-	fmt.Fprintf(os.Stderr, "c11: part A %d cases, part B %d cases, part C %d cases, part D %d cases, part E %d cases, part F %d cases, part G %d cases, part H %d cases, part I %d cases, part J %d cases, part K %d cases\n",
-		counts["A"], counts["B"], nC, nD, nE, nF, nG, nH, nI, nJ, nK)
+	nL := genStall(seed + 88888)
+	fmt.Fprintf(os.Stderr, "c11: part A %d cases, part B %d cases, part C %d cases, part D %d cases, part E %d cases, part F %d cases, part G %d cases, part H %d cases, part I %d cases, part J %d cases, part K %d cases, part L %d cases\n",
+		counts["A"], counts["B"], nC, nD, nE, nF, nG, nH, nI, nJ, nK, nL)
+}
+
+// ---------------------------------------------------------------------------
+// PART L: the peer goes SILENT after k scripted bytes (cut column
+// "st<cfg>.<k>"); the Conn carries a 150 ms deadline (a: SetDeadline, r:
+// SetReadDeadline, w: SetWriteDeadline) and must give up with a timeout instead
+// of blocking forever.  The cases run concurrently.
+// ---------------------------------------------------------------------------
+
+var writeSide = map[string]bool{
+	"produce": true, "joingroup": true, "heartbeat": true, "leavegroup": true, "offsetcommit": true,
+	"createtopics": true, "deletetopics": true, "saslhandshake": true, "saslauthenticate": true,
+}
+
+// runMany runs the cases on a pool of goroutines; results in case order
+func runMany(cases []*tcase) [][]string {
+	res := make([][]string, len(cases))
+	var wg sync.WaitGroup
+	next := make(chan int)
+	for w := 0; w < 32; w++ {
+		wg.Add(1)
+		go func() {
+			defer wg.Done()
+			for i := range next {
+				res[i] = runCase(cases[i])
+			}
+		}()
+	}
+	for i := range cases {
+		next <- i
+	}
+	close(next)
+	wg.Wait()
+	return res
+}
+
+func genStall(seed int64) int {
+	r := rand.New(rand.NewSource(seed))
+	var cases []*tcase
+	for _, a := range apiList {
+		n1 := apiVer{"heartbeat", 0}
+		if a.name == "heartbeat" {
+			n1 = apiVer{"leavegroup", 0}
+		}
+		b := genBody(r, a.name, a.ver, site{}, fetchOpt{msV2, false})
+		cfgs := "a"
+		if writeSide[a.name] {
+			cfgs += "w"
+		} else {
+			cfgs += "r"
+		}
+		if a.name == "apiversions" {
+			cfgs += "w"
+		}
+		for _, k := range []int{0, 8 + len(b.body)/2} {
+			for _, cfg := range []byte(cfgs) {
+				cases = append(cases, &tcase{
+					topic:    ownTopic,
+					cut:      -1,
+					stallCfg: cfg,
+					stallK:   k,
+					ops:      []opSpec{{a.name, a.ver, b.off}, {n1.name, n1.ver, 0}},
+					frames:   [][]byte{frame(2, b.body), frame(3, []byte{0, 0})},
+					tags:     fmt.Sprintf("stall,kind=primed,op=%sv%d,cfg=%c,k=%s,next=%sv%d", a.name, a.ver, cfg, kvfmt.U(uint64(k)), n1.name, n1.ver),
+				})
+			}
+		}
+	}
+	for _, name := range []string{"produce", "joingroup", "createtopics", "deletetopics", "saslhandshake", "fetch", "metadata"} {
+		var x negAPI
+		for _, a := range negAPIs {
+			if a.name == name {
+				x = a
+			}
+		}
+		var s script
+		s.add(avTable(r, 0, nil, false))
+		n := len(s.frames[0])
+		op1 := s.respond(r, x.name, x.top())
+		s.add([]byte{0, 0})
+		for _, k := range []int{0, 9, n - 1} {
+			for _, cfg := range []byte("arw") {
+				cases = append(cases, &tcase{
+					topic:    ownTopic,
+					cut:      -1,
+					noprime:  true,
+					stallCfg: cfg,
+					stallK:   k,
+					ops:      []opSpec{op1, {"heartbeat", 0, 0}},
+					frames:   s.frames,
+					tags:     fmt.Sprintf("stall,kind=nego,op=%s,cfg=%c,k=%s,next=heartbeatv0", verTag(x.name, x.top()), cfg, kvfmt.U(uint64(k))),
+				})
+			}
+		}
+	}
+	res := runMany(cases)
+	for i, c := range cases {
+		caseID++
+		fmt.Fprintf(out, "%d %s | %s | %s\n", caseID, c.head(), strings.Join(res[i], " "), c.tags)
+	}
+	return len(cases)
 }
 
 // ---------------------------------------------------------------------------
